@@ -359,7 +359,18 @@ class SerialMpWriter(MpWriter):
         self.tasks = [SegmentWriter(ix, _lk=False, **self.subargs)
                       for _ in xrange(self.procs)]
         self.pointer = 0
+        self._grouping = 0
         self._added_sub = False
+
+    def cancel(self):
+        # The sub-writers share this writer's temporary storage, so close them
+        # without letting each of them destroy it
+        try:
+            for writer in self.tasks:
+                writer._close_segment()
+                writer.is_closed = True
+        finally:
+            SegmentWriter.cancel(self)
 
     def add_document(self, **fields):
         self.tasks[self.pointer].add_document(**fields)
